@@ -58,6 +58,53 @@ void profile_cfg_more(const std::string &prof, uint64_t seed, RunCfg &c, Rng &r)
     c.allow_cancel_in_cb = 0;
     c.beh_w = {45, 4, 2, 0, 3, 0, 5, 35, 4, 1, 1, 0, 1, 0, 0};
     c.qcache_max_ttl = 0;
+  } else if (prof == "C12") {
+    c.allow_cancel_in_cb = 0;
+    c.knobs["token_style"] = 2;
+    c.names.clear();
+    int nn = 8 + (int)r.below(8);
+    for (int i = 0; i < nn; i++) {
+      switch (r.below(9)) {
+        case 0: case 1: c.names.push_back("h" + std::to_string(i)); break;                                     // single label
+        case 2: c.names.push_back("a" + std::to_string(i) + ".b"); break;                                      // one dot
+        case 3: c.names.push_back("a" + std::to_string(i) + ".b.c"); break;                                    // two dots
+        case 4: c.names.push_back("a" + std::to_string(i) + ".b.c.d.e"); break;                                // four dots
+        case 5: c.names.push_back("x" + std::to_string(i) + ".ex1.test."); break;                              // fully qualified
+        case 6: c.names.push_back(std::string(50, 'l') + std::to_string(i) + ".ex2.test"); break;              // long label
+        case 7: { std::string n2 = "n" + std::to_string(i); for (int k = 0; k < 3; k++) n2 += "." + std::string(58, (char)('a' + k)); n2 += "." + std::string(40 + r.below(14), 'z'); c.names.push_back(n2); break; }   // name + domain may not fit
+        default: c.names.push_back("al"); break;                                                              // may have a host alias
+      }
+    }
+    int f = 0;
+    if (r.chance(0.7)) f |= ARES_FLAG_EDNS;
+    if (r.chance(0.12)) f |= ARES_FLAG_NOSEARCH;
+    if (r.chance(0.5)) f |= ARES_FLAG_NOALIASES;
+    if (r.chance(0.2)) f |= ARES_FLAG_DNS0x20;
+    if (r.chance(0.2)) f |= ARES_FLAG_STAYOPEN;
+    c.flags = f;
+    c.ndots = r.chance(0.3) ? -1 : (int)r.below(4);
+    c.set_domains = 1; c.domains.clear();
+    int nd = (int)r.below(5);
+    static const char *doms[] = {"corp.test", "sub.corp.test", "lan.test", ".", "deep.er.dom.test"};
+    for (int i = 0; i < nd; i++) { std::string d = doms[r.below(5)]; if (std::find(c.domains.begin(), c.domains.end(), d) == c.domains.end()) c.domains.push_back(d); }
+    c.lookups = "b";
+    c.qcache_max_ttl = 0;
+    c.retry_chance = 0; c.retry_delay = 0;   // no failover probes: every transmission belongs to a candidate
+    c.tries = 1 + (int)r.below(2); c.timeout_ms = 100 + (int)r.below(200); c.maxtimeout_ms = -1;
+    c.rotate = 0; c.udp_max_queries = -1;
+    if (c.servers.size() > 2) c.servers.resize(2);
+    for (auto &sv : c.servers) sv.cookie_mode = CK_NONE;
+    c.server_source = 0; c.resolv_conf = "nameserver 10.99.99.99\n";
+    c.zone_w = {30, 30, 40, 0};
+    c.prof.max_cname_chain = 0; c.prof.max_addrs = 2;
+    c.qtypes = {1, 28, 16, 15};
+    c.knobs["kind_mask"] = (1 << K_SEARCH_DNSREC) | (1 << K_SEARCH) | (1 << K_GETADDRINFO) | (1 << K_GETHOSTBYNAME);
+    c.knobs["single_family"] = 1;
+    c.knobs["c12_w_answer"] = 70 + (int64_t)r.below(25); c.knobs["c12_w_servfail"] = (int64_t)r.below(12); c.knobs["c12_w_refused"] = (int64_t)r.below(8); c.knobs["c12_w_silent"] = (int64_t)r.below(8);
+    if (r.chance(0.5)) { std::string ha; for (int n = 0; n < 400; n++) ha += "al-t" + std::to_string(n) + " al-t" + std::to_string(n) + ".aliased.test\n"; c.hostaliases = ha; }
+    c.sock_create_cb = 0; c.sock_config_cb = 0; c.pending_write_cb = 0;
+    c.faults = 0;   // per-candidate outcomes are the fault dimension of this profile
+    c.min_delay = 200; c.max_delay = 3000;
   } else if (prof == "C05") {
     c.allow_cancel_in_cb = 0;
     c.beh_w = {70, 3, 1, 0, 2, 1, 6, 8, 6, 2, 1, 0, 1, 1, 0};
@@ -153,6 +200,11 @@ bool profile_plan_more(const RunCfg &c, Rng &r, std::vector<Step> &plan) {
   if (p == "C03") { gen(c, r, plan, weights({{S_REQ, 40}, {S_ADV, 45}, {S_CHUNK, 10}, {S_STALL, 1}, {S_FAULT, 2}}), 20, 120); for (auto &s : plan) if (s.k == S_FAULT) { s.a = FC_SEND; s.b = 0; s.c = 2 + 4 * (r.chance(0.5) ? 1 : 0) + 16 * (int64_t)r.below(20); } return true; }
   if (p == "C06") { gen(c, r, plan, weights({{S_REQ, 22}, {S_ADV, 50}, {S_STALL, 4}, {S_NETOP, 6}, {S_FAULT, 10}, {S_PARTITION, 3}, {S_SETSRV, 3}, {S_REINIT, 1}, {S_CHUNK, 2}}), 20, 120); return true; }
   if (p == "C07") { gen(c, r, plan, weights({{S_REQ, 25}, {S_ADV, 60}, {S_STALL, 8}, {S_NETOP, 4}, {S_PARTITION, 3}, {S_CANCEL, 1}}), 20, 140); return true; }
+  if (p == "C12") {
+    gen(c, r, plan, weights({{S_REQ, 30}, {S_ADV, 70}}), 20, 120);
+    for (auto &s : plan) { if (s.k == S_REQ) s.d = (s.d / R_NREACT) * R_NREACT + R_NONE; if (s.k == S_ADV) { s.a = 0; s.b = 0; } }   // a well-behaved loop: outcomes per candidate stay definite
+    return true;
+  }
   if (p == "C05") {
     std::vector<int> w = weights({{S_REQ, 28}, {S_ADV, 38}, {S_FORGE, 22}, {S_STALL, 3}, {S_NETOP, 5}, {S_FAULT, 2}, {S_PARTITION, 2}});
     w[S_FORGE] = 22;   // the adversary also acts in runs without transport faults
@@ -396,6 +448,132 @@ static void c06_after(Run &run) {
       if (rounds < 40) { long long ub = 5000LL << rounds; if (wait_ms > ub) run.violate("C06", "wait_above_envelope", "attempt in round " + std::to_string(rounds) + " waits " + std::to_string(wait_ms) + " ms > 5000 * 2^round"); }
       if (rounds >= 1) run.note("attempt_in_later_round");
     }
+  }
+}
+
+// ---------------------------------------------------------------------------------------------
+// C12: search-list expansion follows resolv.conf semantics
+// ---------------------------------------------------------------------------------------------
+enum { O_DATA = 0, O_NODATA, O_NXDOMAIN, O_SERVFAIL, O_REFUSED, O_TIMEOUT };
+static int c12_beh_of(const Run &run, const std::string &qname_lc, int qtype) {
+  std::vector<int> w = {(int)run.cfg.knob("c12_w_answer", 100), (int)run.cfg.knob("c12_w_servfail"), (int)run.cfg.knob("c12_w_refused"), (int)run.cfg.knob("c12_w_silent")};
+  Rng br(hash_mix(hash_str(W.beh_key ^ 0xC12, qname_lc), (uint64_t)qtype));
+  static const int map[4] = {B_ANSWER, B_SERVFAIL, B_REFUSED, B_SILENT};
+  return map[br.pick(w)];
+}
+static int c12_outcome(const Run &run, const std::string &cand_text, int qtype) {
+  std::string t = dnsref::name_lower(cand_text);
+  if (!t.empty() && t.back() == '.') t.pop_back();
+  int b = c12_beh_of(run, t, qtype);
+  if (b == B_SERVFAIL) return O_SERVFAIL;
+  if (b == B_REFUSED) return O_REFUSED;
+  if (b == B_SILENT) return O_TIMEOUT;
+  int z = W.zone_outcome(dnsref::name_from_text(t), qtype);
+  return z == Z_DATA ? O_DATA : z == Z_NODATA ? O_NODATA : O_NXDOMAIN;
+}
+static int c12_status_of(int o) {
+  switch (o) { case O_DATA: return ARES_SUCCESS; case O_NODATA: return ARES_ENODATA; case O_NXDOMAIN: return ARES_ENOTFOUND; case O_SERVFAIL: return ARES_ESERVFAIL; case O_REFUSED: return ARES_EREFUSED; default: return ARES_ETIMEOUT; }
+}
+static size_t dots_in(const std::string &s) { size_t n = 0; for (char ch : s) if (ch == '.') n++; return n; }
+// 0 = cannot be encoded, 1 = fits, 2 = grey zone (text form fits 255 characters but the wire form needs 256/257 octets:
+// malformed by RFC 1035, yet self-consistent; the statement does not say on which side "no longer fits" falls)
+static int encodable(const std::string &cand) {
+  std::string t = cand;
+  if (!t.empty() && t.back() == '.') t.pop_back();
+  size_t wire = 1;
+  size_t st = 0;
+  while (st <= t.size()) {
+    size_t e = t.find('.', st);
+    if (e == std::string::npos) e = t.size();
+    size_t l = e - st;
+    if (l == 0 || l > 63) return 0;
+    wire += 1 + l;
+    st = e + 1;
+    if (e == t.size()) break;
+  }
+  if (wire <= 255) return 1;
+  return cand.size() <= 255 ? 2 : 0;
+}
+struct C12Alt { std::vector<std::string> wire; std::set<int> status; };
+// enumerate the acceptable walks (set-valued where the statement is silent)
+static void c12_walk(const Run &run, const std::vector<std::string> &cands, size_t i, int qtype, bool addr_kind, std::vector<std::string> wire, bool any_nodata, int last, std::vector<C12Alt> &out) {
+  if (out.size() > 64) return;
+  if (i >= cands.size()) {
+    C12Alt a; a.wire = wire;
+    if (last == ARES_ENOTFOUND || last == ARES_ENODATA) a.status = {any_nodata ? ARES_ENODATA : last};
+    else { a.status = {last}; if (any_nodata) a.status.insert(ARES_ENODATA); }
+    out.push_back(a);
+    return;
+  }
+  int enc = encodable(cands[i]);
+  if (enc == 0 || enc == 2) { C12Alt a; a.wire = wire; a.status = {-2}; out.push_back(a); if (enc == 0) return; }
+  std::string w = dnsref::name_lower(cands[i]); if (!w.empty() && w.back() == '.') w.pop_back();
+  wire.push_back(w);
+  int o = c12_outcome(run, cands[i], qtype);
+  int st = c12_status_of(o);
+  if (o == O_DATA) { C12Alt a; a.wire = wire; a.status = {ARES_SUCCESS}; out.push_back(a); return; }
+  if (o == O_NODATA) { c12_walk(run, cands, i + 1, qtype, addr_kind, wire, true, st, out); return; }
+  if (o == O_NXDOMAIN) { c12_walk(run, cands, i + 1, qtype, addr_kind, wire, any_nodata, st, out); return; }
+  if (o == O_SERVFAIL || o == O_REFUSED) {
+    bool single = dots_in(w) == 0;
+    bool rooted = !cands[i].empty() && cands[i].back() == '.';
+    if (single) c12_walk(run, cands, i + 1, qtype, addr_kind, wire, any_nodata, st, out);   // documented tolerance for single-label names
+    if (!single || rooted) { C12Alt a; a.wire = wire; a.status = {st}; out.push_back(a); }   // "name." : single label written absolutely - either reading
+    return;
+  }
+  C12Alt a; a.wire = wire; a.status = {st}; out.push_back(a);
+}
+static void c12_done(Run &run, Req &r) {
+  if (run.cfg.profile != "C12") return;
+  if (r.kind != K_SEARCH && r.kind != K_SEARCH_DNSREC && r.kind != K_GETADDRINFO && r.kind != K_GETHOSTBYNAME) return;
+  if (r.from_callback) return;
+  int flags = run.cfg.flags < 0 ? ARES_FLAG_EDNS : run.cfg.flags;
+  int qtype = r.qtype;
+  bool addr_kind = r.kind == K_GETADDRINFO || r.kind == K_GETHOSTBYNAME;
+  if (addr_kind) qtype = r.family == AF_INET6 ? 28 : 1;
+  // ---- reference candidate list (resolv.conf(5)) ----
+  std::vector<std::string> dom = run.cfg.domains;
+  if (dom.empty()) dom.push_back("sim.test");           // default search list: the domain part of the host name
+  size_t ndots = (size_t)run.eff_ndots;
+  std::vector<std::string> cands;
+  const std::string &name = r.name;
+  bool alias = false;
+  if (!(flags & ARES_FLAG_NOALIASES) && name.find('.') == std::string::npos && !run.cfg.hostaliases.empty() && name.compare(0, 4, "al-t") == 0) alias = true;
+  if (alias) cands.push_back(name + ".aliased.test");
+  else if ((!name.empty() && name.back() == '.') || (flags & ARES_FLAG_NOSEARCH)) cands.push_back(name);
+  else {
+    bool first = dots_in(name) >= ndots;
+    if (first) cands.push_back(name);
+    for (auto &d : dom) cands.push_back(d == "." ? name + "." : name + "." + d);
+    if (!first) cands.push_back(name);
+  }
+  std::vector<C12Alt> alts;
+  c12_walk(run, cands, 0, qtype, addr_kind, {}, false, ARES_ENOTFOUND, alts);
+  // ---- what was seen on the wire for this request ----
+  std::vector<std::string> seen;
+  std::set<std::pair<std::string, int>> seen_q;   // a candidate = one query id (the same name can legitimately be a candidate twice)
+  for (int i = r.tx_at_submit; i < (int)W.txs.size(); i++) {
+    const Tx &t = W.txs[(size_t)i];
+    if (t.token != r.token || !t.decode_err.empty() || t.msg.qd.empty() || t.msg.qd[0].type != qtype) continue;
+    if (seen_q.insert({t.qname_lc, (int)t.msg.id}).second) seen.push_back(t.qname_lc);
+  }
+  run.note("search_walk_checked");
+  if (cands.size() > 1) run.note("search_walk_multi_candidate");
+  if (alias) run.note("search_alias_applied");
+  if (alts.size() > 1) run.note("search_walk_set_valued");
+  auto join = [](const std::vector<std::string> &v) { std::string o; for (auto &x : v) { std::string y = x.size() > 60 ? x.substr(0, 28) + ".." + x.substr(x.size() - 28) : x; o += (o.empty() ? "" : " , ") + y; } return o; };
+  std::string ctx = std::string(req_kind_name[r.kind]) + " '" + (name.size() > 70 ? name.substr(0, 70) + ".." : name) + "' type " + std::to_string(qtype) + " ndots " + std::to_string(ndots) + " domains [" + join(dom) + "]" + ((flags & ARES_FLAG_NOSEARCH) ? " NOSEARCH" : "") + (alias ? " alias" : "");
+  bool seq_ok = false, both_ok = false;
+  for (auto &a : alts) {
+    if (a.wire != seen) continue;
+    seq_ok = true;
+    if (a.status.count(-2) ? r.status != ARES_SUCCESS : a.status.count(r.status) > 0) both_ok = true;
+  }
+  if (!seq_ok) { run.violate("C12", "candidate_sequence", ctx + ": expected candidates on the wire [" + join(alts.empty() ? std::vector<std::string>() : alts.back().wire) + "]" + (alts.size() > 1 ? " (or " + std::to_string(alts.size() - 1) + " permitted variant(s))" : "") + ", saw [" + join(seen) + "]"); return; }
+  if (!both_ok) {
+    std::string want;
+    for (auto &a : alts) if (a.wire == seen) for (int st : a.status) want += std::string(want.empty() ? "" : " or ") + (st == -2 ? "any error" : ares_status_name(st));
+    run.violate("C12", "final_status", ctx + ": candidates [" + join(seen) + "] should end with " + want + ", callback got " + ares_status_name(r.status));
   }
 }
 
@@ -706,7 +884,7 @@ void profile_attach_more(Run &run) {
   run.tx_obs.push_back(c03_tx);
   run.tx_obs.push_back(c06_tx);
   auto prev_done = run.on_done;
-  run.on_done = [prev_done](Run &r, Req &q) { if (prev_done) prev_done(r, q); c03_done(r, q); c08_done(r, q); c05_done(r, q); };
+  run.on_done = [prev_done](Run &r, Req &q) { if (prev_done) prev_done(r, q); c03_done(r, q); c08_done(r, q); c05_done(r, q); c12_done(r, q); };
   run.world_ready.push_back([](Run &r) {
     Run *rp = &r;
     W.on_read = [rp](Resp &rs, VFd &sock) { c05_arrival(*rp, rs, sock); };
@@ -714,6 +892,12 @@ void profile_attach_more(Run &run) {
   });
   auto prev_after = run.after_step;
   run.after_step = [prev_after, p](Run &r) { if (prev_after) prev_after(r); c06_after(r); if (r.cfg.mode == 0) c10_after(r); };
+  if (p == "C12") {
+    run.world_ready.push_back([](Run &r) {
+      Run *rp = &r;
+      W.beh_override = [rp](const Tx &t) { return t.msg.qd.empty() ? -1 : c12_beh_of(*rp, t.qname_lc, t.msg.qd[0].type); };
+    });
+  }
   if (p == "C05") {
     run.extra_step = [](Run &r, const Step &s) { if (s.k == S_FORGE) c05_forge_step(r, s); };
     run.at_end = c05_end;
@@ -750,6 +934,7 @@ bool profile_nontrivial(const Run &run) {
   if (p == "C10") return base && W.stat.count("sock_udp_opened");
   if (p == "C08") return base && get("cache_hit") > 0;
   if (p == "C05") return base && get("forged_packet") > 0;
+  if (p == "C12") return base && get("search_walk_multi_candidate") > 0;
   if (p == "C20") return base && get("differential_compared") > 0 && (W.stat.count("send_short") || W.stat.count("recv_short") || W.stat.count("send_eagain_window") || W.stat.count("recv_eagain_injected") || get("zero_length_datagram") > 0 || !W.fault_fired.empty());
   if (p == "C01") return base && (get("req_from_callback") + get("cancel_in_callback") + get("cancel_with_outstanding") > 0 || !W.fault_fired.empty());
   return base;
@@ -759,6 +944,7 @@ const char *profile_rule(const std::string &prof) {
   if (prof == "C03") return "runs are seeded plans (requests by name / setter-built multi-record messages / legacy builder, transport chunking so frames queue behind unsent bytes); non-trivial = at least one setter-built frame or one delivered answer was compared with the reference codec; distinct = distinct trace-shape hash";
   if (prof == "C06") return "runs are seeded plans over per-attempt server outcomes, option extremes (tries up to 100, timeouts 1 ms..INT_MAX, maxtimeout below the floor), list edits; non-trivial = at least one attempt's wait was checked against the envelope and traffic was processed; distinct = distinct trace-shape hash";
   if (prof == "C07") return "runs are seeded plans with silent/slow servers and sleep-exactly/overshoot/stall steps; non-trivial = the hint was compared with a real deadline and at least one loop turn ran with an expired deadline; distinct = distinct trace-shape hash";
+  if (prof == "C12") return "runs are seeded sets of search/getaddrinfo/gethostbyname requests over name shapes (0..4 dots, trailing dot, long labels, names that stop fitting once a domain is appended, host aliases) x ndots x domain lists (incl. root) x flags, with a per-candidate outcome (data, NODATA, NXDOMAIN, SERVFAIL, REFUSED, timeout) fixed by keyed hash; the question names seen at the virtual server and the final status are compared with an independent resolv.conf(5) reference; non-trivial = at least one request whose reference candidate list has more than one entry was checked; distinct = distinct trace-shape hash";
   if (prof == "C05") return "runs are seeded histories of genuine traffic (loss, delay, duplicates, late replies, error rcodes, TC) with an off-path adversary injecting datagrams that differ from the would-be-valid reply in one respect (id, socket, source address, name, type, class, question count, letter case, cookie) at chosen instants of a query's life; every delivered datum carries a unique marker naming its packet; non-trivial = at least one forged packet was injected while traffic was processed; distinct = distinct trace-shape hash";
   if (prof == "C08") return "runs are seeded sequences of requests over a small name set (case / trailing-dot / flag / type variants, every API), responses with TTL mixes and negative answers, virtual-time advances around whole-second expiry instants, server-list changes and reinit; non-trivial = at least one request was answered without any transmission (a cache hit judged by the reference model); distinct = distinct trace-shape hash";
   if (prof == "C20") return "each seeded plan (batches of queued queries, answers up to several KiB, TC upgrades) is executed twice: once with whole-message always-writable transport and once with generated inbound chunking, partial writes, EAGAIN windows and zero-length datagrams; non-trivial = the two executions were compared and at least one short read/short write/EAGAIN/zero-length datagram actually occurred; distinct = distinct trace-shape hash of the segmented execution";
